@@ -53,6 +53,7 @@ struct Obj
   virtual void copy_from(const Obj& other) = 0;                 // same kind, same layout sizes
   virtual std::unique_ptr<Obj> reserialize() const = 0;
   virtual std::unique_ptr<Obj> from_layout() const { return nullptr; }
+  virtual std::unique_ptr<Obj> from_layout_assign(bool prefilled) const { (void)prefilled; return nullptr; }   // target = src.layout() (operator=)
 };
 template<typename C, int K> struct ObjT : Obj
 {
@@ -75,6 +76,12 @@ template<typename C, int K> struct ObjT : Obj
   std::unique_ptr<Obj> from_layout() const override
   {
     if constexpr(K == K_CSR64 || K == K_CSR32 || K == K_BCSR22 || K == K_CSCR || K == K_BAND) { return std::unique_ptr<Obj>(new ObjT(C(c.layout()))); } else return nullptr;
+  }
+  std::unique_ptr<Obj> from_layout_assign(bool prefilled) const override
+  {
+    // layout ASSIGNMENT to an existing object: empty (default constructed) or already holding its own arrays (a deep clone,
+    // whose arrays the assignment has to release)
+    if constexpr(K == K_CSR64 || K == K_CSR32 || K == K_BCSR22 || K == K_CSCR || K == K_BAND) { auto* o = new ObjT(); if(prefilled) o->c = c.clone(CloneMode::Deep); o->c = c.layout(); return std::unique_ptr<Obj>(o); } else return nullptr;
   }
 };
 typedef ObjT<DV64, K_DV64> ODV64; typedef ObjT<DV32, K_DV32> ODV32; typedef ObjT<DVB2, K_DVB2> ODVB2; typedef ObjT<CSR64, K_CSR64> OCSR64;
@@ -221,8 +228,10 @@ static void history_case(Tape& t, Ctx& c)
       // views into arrays only the target owns would dangle: drop them first (documented misuse otherwise)
       for(int id : w.m.s[dj].e) if(w.m.owners(id) == 1) for(int k = 0; k < 8; ++k) if(w.m.s[k].kind >= 0 && w.m.s[k].view && w.m.s[k].e[0] == id) { w.o[k].reset(); w.m.s[k] = MSlot(); }
       w.o[dj]->move_assign(*w.o[si]); w.m.s[dj] = src; w.m.s[si] = MSlot(); w.o[si].reset(); w.m.gc(); break; }
-    case O_LAYOUT: { if(!is_matrix(src.kind)) { --st; continue; } if(di == si) di = (si + 1) % 8; h.set("op", opn); h.set("src", si); h.set("dst", di); w.note(h, opn);
-      auto nb = w.o[si]->from_layout(); w.drop(di); w.o[di] = std::move(nb);
+    case O_LAYOUT: { if(!is_matrix(src.kind)) { --st; continue; } if(di == si) di = (si + 1) % 8;
+      const int lvar = t.range(0, 2); static const char* lvn[] = {"construct", "assign-to-empty", "assign-over-filled"}; c.label(std::string("layout:") + lvn[lvar]);
+      h.set("op", opn); h.set("variant", lvn[lvar]); h.set("src", si); h.set("dst", di); w.note(h, opn);
+      auto nb = (lvar == 0) ? w.o[si]->from_layout() : w.o[si]->from_layout_assign(lvar == 2); w.drop(di); w.o[di] = std::move(nb);
       MSlot ms; ms.kind = src.kind; ms.i = src.i; for(size_t k = 0; k < w.o[di]->ne(); ++k) ms.e.push_back(w.m.add_e(w.o[di]->ecount(k), esz_of(src.kind), {}, false));
       w.m.s[di] = ms; break; }
     case O_VIEW: { if(src.kind != K_DV64 || src.e.empty() || w.m.arr.at(src.e[0]).count == 0) { --st; continue; }
